@@ -5,7 +5,8 @@ value tie  : get_basis_states / get_choi_basis / calculate_dual_choi_basis (entr
              ProcessTensor.predict_final_state on random rational tensors and on tensors produced by the real
              tomography vs the model's contraction (k = 1, 2, 3), _reprepare_site_zero_vector_forced and
              _reprepare_site_zero_forced (probability and the density matrix of the re-prepared state) on random
-             small states and on the states seen inside real tomography sequences.
+             small states and on the states seen inside real tomography sequences, ProcessTensor.to_linear_map_matrix
+             (C-order position of tensor[o, a_0, …]).
 trace tie  : _tomography_sequence_worker run in-process over every sequence of a real tomography (serial executor in
              place of the pool): recorded projection probabilities, number of re-preparations and returned weight
              vs the model's weight walk (product with the `< 1e-15` break).
@@ -16,6 +17,11 @@ oracle     : (model-independent) real tomography.run (real process pool, and the
              with explicit application of the maps and partial trace; every tensor entry against the exact
              unnormalised comb entry for the basis maps |psi_p><psi_m|; synthetic tensors against the multilinear
              extension computed with an independent least-squares expansion in the code's basis.
+An exception or a nan/inf coming out of the code under test is reported as a failing input (`CodeRaised`), never as a
+harness crash.  Every real tomography run happens in a forked child with a hard kill.
+
+Known limitation of the domain (reported, see harness/corpus/C17/pending/offgrid_duration.json): segment durations are
+generated as integer multiples of dt; the code silently rounds any other duration to the nearest multiple.
 """
 from __future__ import annotations
 
@@ -303,7 +309,7 @@ def multilinear(tensor, ws):
 # ----------------------------------------------------------------------------------------------- generators
 def gen(rng, tier):
     yield {"kind": "frame"}
-    n = {"quick": 1, "thorough": 6, "search": 2}.get(tier, 1)
+    n = {"quick": 1, "thorough": 16, "search": 2}.get(tier, 1)
     # the oracle kinds first (they decide the property), the ties after
     heldout = []
     for model in ("ising", "heis"):
@@ -822,7 +828,7 @@ if __name__ == "__main__":
     t_start = time.time()
     ib.main("C17", gen, run, driver="Tomo",
             rule="frame (4 preparations, 16 Choi basis matrices, 16 duals, biorthogonality) + seeded: synthetic rational "
-                 "tensors k=1..3 x intervention kinds; random small states (dense / MPS, dead branches included) x (m, p); "
+                 "tensors k=1..3 x intervention kinds; storage layout; random small states (dense / MPS, dead branches included) x (m, p); "
                  "real tomography runs (Ising/Heisenberg, L=2..3 (4 thorough), TJM order 1/2 and MCWF, k=1..2 (3 thorough)) "
                  "with in-situ traces and held-out interventions; distinct = distinct (kind, size, back-end, branch) signatures",
             trusted_base=["scipy.linalg.expm / numpy dense linear algebra in the oracles",
